@@ -524,6 +524,8 @@ pub fn matches(input_string_value: &Value, pattern_string_value: &Value, flags_s
         if let Ok(re) = Regex::new(pattern.as_str()) {
           return Value::Boolean(re.is_match(input_string));
         }
+      } else if !flags_string_value.is_null() {
+        return invalid_argument_type!("matches", "string", flags_string_value.type_of());
       } else if let Ok(re) = Regex::new(pattern_string) {
         return Value::Boolean(re.is_match(input_string));
       }
@@ -856,6 +858,8 @@ pub fn replace(input_string_value: &Value, pattern_string_value: &Value, replace
             let result = re.replace_all(input_string.as_str(), repl.as_str()).trim().to_string();
             return Value::String(result);
           }
+        } else if !flags_string_value.is_null() {
+          return invalid_argument_type!("replace", "string", flags_string_value.type_of());
         }
         // replace without any flags
         if let Ok(re) = Regex::new(pattern_string) {
